@@ -10,9 +10,9 @@ CONSTANTS
   MaxRestarts = 2
   Detector = TRUE
   RetryLimit = 5
-  AtomicRemove = TRUE
+  AtomicRemove = FALSE
   RemoveByHash = FALSE
-  LockedRemove = FALSE
+  LockedRemove = TRUE
   Contents = {0,1}
   FinLag = 3
   NoIdle = TRUE
